@@ -21,9 +21,9 @@ fn live_files(sim: &Sim, c: &WsCase) -> Vec<(String, String)> {
 }
 
 /// is the fresh analysis of these files deterministic (C11 exclusion)?
-fn fresh_deterministic(files: &[(String, String)], qs: &[String]) -> bool {
-    let d1 = dump(&fresh(files), qs);
-    let d2 = dump(&fresh(files), qs);
+fn fresh_deterministic(files: &[(String, String)], qs: &[String], strict: bool) -> bool {
+    let d1 = dump(&fresh(files, strict), qs);
+    let d2 = dump(&fresh(files, strict), qs);
     d1 == d2
 }
 
@@ -63,14 +63,14 @@ fn gen_c10(rng: &mut Rng) -> WsCase {
         }
         ops.push(if rng.chance(1, 4) { AOp::Close(i) } else { AOp::Remove(i) });
     }
-    WsCase { files, initial, ops, probe: Some(probe) }
+    WsCase { files, initial, ops, probe: Some(probe), strict: rng.chance(1, 3) }
 }
 
 /// returns the failures of one C10 case
 fn oracle_c10(c: &WsCase, report: &mut Report) -> Vec<String> {
     let mut fails = Vec::new();
     let qs = queries(&c.files);
-    let mut sim = Sim::new(c.files.len());
+    let mut sim = Sim::new(c.files.len(), c.strict);
     sim.initial(c);
     // probe: a file that was never there, added and removed again, must leave no trace at all
     let base_dump = dump(&sim.a, &qs);
@@ -121,6 +121,20 @@ fn oracle_c10(c: &WsCase, report: &mut Report) -> Vec<String> {
                         if l.contains(r.as_str()) {
                             fails.push(format!("after removing {r}: a result still refers to it: [{sec}] {l}"));
                         }
+                    }
+                }
+            }
+            // the surviving files stay requirable under their own module names (an exact match always wins)
+            for (j, cur) in sim.current.iter().enumerate() {
+                if cur.is_none() {
+                    continue;
+                }
+                let m = mod_name(&c.files[j].0);
+                let line = d.get("require").and_then(|v| v.iter().find(|l| l.starts_with(&format!("{m} -> "))).cloned());
+                if let Some(l) = line {
+                    let target = l.rsplit(" -> ").next().unwrap_or("");
+                    if mod_name(target) != m {
+                        fails.push(format!("after removing {}: require(\"{m}\") no longer resolves to the live file {}: {l}", c.files[*i].0, c.files[j].0));
                     }
                 }
             }
@@ -176,13 +190,13 @@ fn gen_c08(rng: &mut Rng) -> WsCase {
             ops.push(AOp::Update(i, 0));
         }
     }
-    WsCase { files, initial, ops, probe: None }
+    WsCase { files, initial, ops, probe: None, strict: rng.chance(1, 3) }
 }
 
 fn oracle_c08(c: &WsCase, report: &mut Report) -> Vec<String> {
     let mut fails = Vec::new();
     let qs = queries(&c.files);
-    let mut sim = Sim::new(c.files.len());
+    let mut sim = Sim::new(c.files.len(), c.strict);
     sim.initial(c);
     let mut k = 0;
     if let Some(AOp::Reindex) = c.ops.first() {
@@ -250,13 +264,13 @@ fn gen_c09(rng: &mut Rng) -> WsCase {
         });
     }
     ops.push(AOp::Reindex);
-    WsCase { files, initial, ops, probe: None }
+    WsCase { files, initial, ops, probe: None, strict: rng.chance(1, 3) }
 }
 
 fn oracle_c09(c: &WsCase, report: &mut Report) -> Vec<String> {
     let mut fails = Vec::new();
     let qs = queries(&c.files);
-    let mut sim = Sim::new(c.files.len());
+    let mut sim = Sim::new(c.files.len(), c.strict);
     sim.initial(c);
     for op in &c.ops {
         sim.apply(c, op);
@@ -269,7 +283,7 @@ fn oracle_c09(c: &WsCase, report: &mut Report) -> Vec<String> {
         });
     }
     let files = live_files(&sim, c);
-    let f = fresh(&files);
+    let f = fresh(&files, c.strict);
     // the path <-> id maps of the Vfs keep closed files (ids are never reused); not indexed state
     let ignore = ["vfs.file_id_map", "vfs.file_path_map"];
     if let Some(x) = diff_sizes(&sizes(&f), &sizes(&sim.a), &ignore) {
@@ -294,20 +308,33 @@ fn corpus(prop: &str) -> Vec<WsCase> {
         f("f0.lua", &["Ga = 1\nlocal M = {}\nM.value = 0\nreturn M\n", "Gb = 1\n"]),
         f("lib/f1.lua", &["local m = require(\"f0\")\nprint(m.value, Ga)\n---@class Cb\n---@field y integer\n", "print(1)\n"]),
     ];
-    match prop {
+    let parent = vec![
+        f("p/init.lua", &["local M = {}\nM.value = 0\nreturn M\n", "local M = {}\nM.value = 9\nreturn M\n"]),
+        f("p/f1.lua", &["local M = {}\nM.value = 1\nreturn M\n", "local M = {}\nM.value = 8\nreturn M\n"]),
+        f("main.lua", &["local c = require(\"p.f1\")\nlocal d = require(\"p\")\nprint(c.value, d.value)\n", "print(1)\n"]),
+    ];
+    let pc = |ops: Vec<AOp>, strict: bool| WsCase { files: parent.clone(), initial: vec![0, 1, 2], ops, probe: None, strict };
+    let mut extra = match prop {
+        "C10" => vec![pc(vec![AOp::Update(0, 1), AOp::Remove(0)], true), pc(vec![AOp::Remove(0), AOp::Remove(2)], false)],
+        "C08" => vec![pc(vec![AOp::Update(0, 1), AOp::Update(0, 0), AOp::Resubmit(0), AOp::Resubmit(1)], true), pc(vec![AOp::Resubmit(0), AOp::Update(1, 1), AOp::Update(1, 0)], false)],
+        _ => vec![pc(vec![AOp::Update(0, 1), AOp::Remove(0), AOp::Reindex], true), pc(vec![AOp::Close(0), AOp::Update(1, 1), AOp::Reindex], false)],
+    };
+    let mut base = match prop {
         "C10" => vec![
-            WsCase { files: plain.clone(), initial: vec![0, 1], ops: vec![AOp::Remove(0), AOp::Remove(1)], probe: None },
-            WsCase { files: split.clone(), initial: vec![0, 1, 2], ops: vec![AOp::Remove(1), AOp::Close(0)], probe: None },
+            WsCase { files: plain.clone(), initial: vec![0, 1], ops: vec![AOp::Remove(0), AOp::Remove(1)], probe: None, strict: false },
+            WsCase { files: split.clone(), initial: vec![0, 1, 2], ops: vec![AOp::Remove(1), AOp::Close(0)], probe: None, strict: false },
         ],
         "C08" => vec![
-            WsCase { files: plain.clone(), initial: vec![0, 1], ops: vec![AOp::Resubmit(0), AOp::Resubmit(1), AOp::Update(0, 1), AOp::Update(0, 0)], probe: None },
-            WsCase { files: split.clone(), initial: vec![0, 1, 2], ops: vec![AOp::Resubmit(1), AOp::Resubmit(2)], probe: None },
+            WsCase { files: plain.clone(), initial: vec![0, 1], ops: vec![AOp::Resubmit(0), AOp::Resubmit(1), AOp::Update(0, 1), AOp::Update(0, 0)], probe: None, strict: false },
+            WsCase { files: split.clone(), initial: vec![0, 1, 2], ops: vec![AOp::Resubmit(1), AOp::Resubmit(2)], probe: None, strict: false },
         ],
         _ => vec![
-            WsCase { files: plain.clone(), initial: vec![0, 1], ops: vec![AOp::Update(0, 1), AOp::Remove(1), AOp::Reindex], probe: None },
-            WsCase { files: split.clone(), initial: vec![0, 1, 2], ops: vec![AOp::Update(1, 1), AOp::Update(1, 0), AOp::Close(2), AOp::Reindex], probe: None },
+            WsCase { files: plain.clone(), initial: vec![0, 1], ops: vec![AOp::Update(0, 1), AOp::Remove(1), AOp::Reindex], probe: None, strict: false },
+            WsCase { files: split.clone(), initial: vec![0, 1, 2], ops: vec![AOp::Update(1, 1), AOp::Update(1, 0), AOp::Close(2), AOp::Reindex], probe: None, strict: false },
         ],
-    }
+    };
+    base.append(&mut extra);
+    base
 }
 
 pub fn run(args: &Args, report: &mut Report) {
@@ -347,7 +374,7 @@ pub fn run(args: &Args, report: &mut Report) {
         // C11 exclusion: the fresh analysis of the initial files must itself be deterministic
         let init: Vec<(String, String)> = c.initial.iter().map(|&i| (c.files[i].0.clone(), c.files[i].1[0].clone())).collect();
         let c2 = c.clone();
-        let det = vh_common::catch(move || fresh_deterministic(&init, &queries(&c2.files))).unwrap_or(true);
+        let det = vh_common::catch(move || fresh_deterministic(&init, &queries(&c2.files), c2.strict)).unwrap_or(true);
         if !det {
             excluded += 1;
             continue;
